@@ -86,6 +86,7 @@ structure Args where
   step : Option (Option Int) := none
   dates : Option Dates := none
   strict : Bool := true
+  stepSame : Bool := false       -- the object passed as `step=` is `propagator.step` itself (numerical propagators)
 deriving DecidableEq, Repr
 
 def Stop.resolve (start : Int) : Stop → Int
@@ -207,12 +208,15 @@ def ephemIter (fuel : Nat) (order : Nat) (pts : List Int) (dates : Option Dates)
 
 /-- `while ((date > stop) if backward else (date < stop)) or (interp and len(ephem) < Ephem.DEFAULT_ORDER):`
 `    real_step, orb = self._make_step(orb, _step); ephem.append(orb); date += real_step` — the dates appended.
-`len` is `len(ephem)`, `hs` the signed integration step `_step` (`real_step == _step` for the fixed-step methods). -/
-def march (backward interp : Bool) (order : Nat) (hs stop : Int) : Nat → Nat → Int → Option (List Int)
+`len` is `len(ephem)`; `rs len` is the LENGTH of the integration step taken when the ephemeris holds `len` points
+(`|real_step|`): `self.step` for the fixed-step methods (euler, rk4), whatever the step-size control of the adaptive methods
+(rkf54, dopri54) arrives at — a parameter of the model, the integration itself is not modelled. -/
+def march (backward interp : Bool) (order : Nat) (rs : Nat → Int) (stop : Int) : Nat → Nat → Int → Option (List Int)
   | 0, _, _ => none
   | f + 1, len, date =>
     if (if backward then decide (date > stop) else decide (date < stop)) || (interp && decide (len < order)) then
-      (march backward interp order hs stop f (len + 1) (date + hs)).map ((date + hs) :: ·)
+      let next := date + (if backward then -(rs len) else rs len)
+      (march backward interp order rs stop f (len + 1) next).map (next :: ·)
     else some []
 
 /-- `min(dates)`, `max(dates)` of a non-empty list `d :: l` -/
@@ -224,11 +228,12 @@ state at `start` (extrapolation or retropolation from the epoch, padded to `orde
 interpolation inside the padded span) always succeeds for the fixed-step methods and is not a date
 computation; only its result date `start` enters here. `listening` = `bool(listeners)`.
 Returns also whether `Ephem.iter` (and with it `clear_listeners`) was reached. -/
-def numCore (fuel order : Nat) (h start stop : Int) (kstep : Option Int) (dates : Option Dates) (listening : Bool) : Bool × Run :=
+def numCore (fuel order : Nat) (h : Int) (rs : Nat → Int) (start stop : Int) (kstep : Option Int) (dates : Option Dates)
+    (listening : Bool) : Bool × Run :=
   let backward := decide (stop < start)
   let hs := if backward then -h else h
   let interp := dates.isSome || kstep.isSome || listening
-  match march backward interp order hs stop fuel 1 start with
+  match march backward interp order rs stop fuel 1 start with
   | none => (false, ⟨[], .fuel⟩)
   | some more =>
     -- `if backward and dates is None: dates = Date.range(start, stop, _step if step is None else step, inclusive=True)`
@@ -237,18 +242,22 @@ def numCore (fuel order : Nat) (h start stop : Int) (kstep : Option Int) (dates 
     match datesE with
     | .error e => (false, Run.fail e)
     | .ok dates1 =>
-      -- `Ephem(ephem)` sorts the points by date (h > 0: a backward march is a descending list)
+      -- `Ephem(ephem)` sorts the points by date (steps > 0: a backward march is a descending list)
       let pts := if backward then (start :: more).reverse else start :: more
       -- `last = stop if dates is None and start <= stop else None`
       let last : Option Stop := if dates1.isNone && decide (start ≤ stop) then some (.at stop) else none
       (true, ephemIter fuel order pts dates1 none last kstep true)
 
-/-- `NumericalPropagator.iter(**kwargs)` followed by `KeplerNum._iter(**kwargs)`; `h = self.step > 0`. -/
-def numIter (fuel order : Nat) (epoch h : Int) (a : Args) (listening : Bool) : Bool × Run :=
+/-- `NumericalPropagator.iter(**kwargs)` followed by `KeplerNum._iter(**kwargs)`; `h = self.step > 0` is the nominal step,
+`rs` the lengths of the integration steps actually taken (see `march`). `ident`: the test by which `_iter` recognises that no
+sampling of its own was requested is an IDENTITY test (`step is self.step`: only the default injected by
+`NumericalPropagator.iter`, or `propagator.step` passed by the caller) and not a comparison by value — read from the source
+on every run (`Generated.numStepTestIsIdentity`). -/
+def numIter (fuel order : Nat) (epoch h : Int) (rs : Nat → Int) (ident : Bool) (a : Args) (listening : Bool) : Bool × Run :=
   match a.dates with
   | some (.list []) => (false, ⟨[], .done⟩)                -- `if not dates: return`
-  | some (.list (d :: l)) => numCore fuel order h (listMin d l) (listMax d l) none (some (.list (d :: l))) listening
-  | some (.range s0 s1 st incl) => numCore fuel order h s0 s1 none (some (.range s0 s1 st incl)) listening
+  | some (.list (d :: l)) => numCore fuel order h rs (listMin d l) (listMax d l) none (some (.list (d :: l))) listening
+  | some (.range s0 s1 st incl) => numCore fuel order h rs s0 s1 none (some (.range s0 s1 st incl)) listening
   | none =>
     match a.stop with
     | none => (false, Run.fail .value)
@@ -263,10 +272,10 @@ def numIter (fuel order : Nat) (epoch h : Int) (a : Args) (listening : Bool) : B
         match a.step with
         | none => none            -- setdefault stored self.step itself
         | some none => none
-        | some (some s) => some s
+        | some (some s) => if a.stepSame || (!ident && s == h) then none else some s
       match a.start with
       | some none => (false, Run.fail .attr)               -- kwargs["start"] is still None: `None != orb.date`
-      | _ => numCore fuel order h startL stop kstep none listening
+      | _ => numCore fuel order h rs startL stop kstep none listening
 
 /-! ### objects, binding, listeners, histories -/
 
@@ -298,6 +307,8 @@ structure World (V : Type) where
   sameState : V → V → Bool
   epoch : Nat → Int
   h : Int := 60000000
+  rs : Nat → Int := fun _ => h         -- lengths of the integration steps (fixed-step methods: all `h`)
+  stepIdent : Bool := true             -- `KeplerNum._iter` tests `step is self.step` (not `==`)
   order : Nat := 8
   pts : List Int := []
 
@@ -345,7 +356,7 @@ def Call.isModify : Call → Bool
 def iterRun {V : Type} (w : World V) (fuel : Nat) (i : Nat) (a : Args) (listening : Bool) : Bool × Run :=
   match w.kind with
   | .ephem => (true, ephemIter fuel w.order w.pts a.dates (a.start.getD none) a.stop (a.step.getD none) a.strict)
-  | .num => numIter fuel w.order (w.epoch i) w.h a listening
+  | .num => numIter fuel w.order (w.epoch i) w.h w.rs w.stepIdent a listening
   | _ => analyticalIter fuel (w.epoch i) none a
 
 def setPrev (prev : List (Option Int)) (ls : List Nat) (v : Option Int) : List (Option Int) :=
